@@ -818,6 +818,16 @@ func c16CrashRun(c c16CrashCase) (v vVerdict) {
 			return vFailf("crash-mixed-config", "killed on entry to call %d of the save [%s]: the configuration read at the next start-up is neither the old nor the new one (vs old: %s; vs new: %s)",
 				pi+1, p.text, vTrim(mo, 200), vTrim(mn, 200))
 		}
+		// the next run must be able to save again, whatever the interrupted save left lying around
+		if out, err := child(home, c.New); err != nil {
+			return vFailf("harness", "save after a crash failed to run: %v\n%s", err, vTrim(out, 400))
+		}
+		if err := c16SetupViper(home); err != nil {
+			return vFailf("config-unreadable", "after a kill on entry to call %d [%s] and one more save, start-up cannot read the configuration: %v", pi+1, p.text, err)
+		}
+		if msg := c16Compare(newWant); msg != "" {
+			return vFailf("save-after-crash-lost", "after a kill on entry to call %d of a save [%s], the next run's save did not take effect: %s", pi+1, p.text, vTrim(msg, 300))
+		}
 		os.RemoveAll(home)
 	}
 	v.NonTrivial = len(points) >= 4
